@@ -126,8 +126,11 @@ def addressFromString (addr : Bytes) : Bytes × Bytes :=
       | parts => if equalFoldAscii (parts.getD 1 []) (sb "winlink.org") then ([], parts.getD 0 []) else (sb "SMTP", addr)
   if a.1.isEmpty then (a.1, toUpper a.2) else a
 
+/-- ";FW: " as literal bytes -/
+def fwPrefix : Bytes := [59, 70, 87, 58, 32]
+
 def parseFW (line : Bytes) : Option (List (Bytes × Bytes)) :=
-  if !(sb ";FW: ").isPrefixOf line then none
+  if !fwPrefix.isPrefixOf line then none
   else some ((splitOn 32 (line.drop 5)).map fun s => addressFromString ((splitOn 124 s).headD []))
 
 def isSID (s : Bytes) : Bool := s.head? = some 91 && s.getLast? = some 93
